@@ -412,3 +412,41 @@ def lower_bytes_expr(t, out: List[Emit], atoms: Atoms, opaque_calls=False):
         out.append(Emit('bytes', None, t[2]))
         return
     raise LayoutError('bytes expression outside the idiom table: %s' % fmt_term(t))
+
+
+def accumulated_emits(path, atoms: 'Atoms', opaque_calls=True):
+    """Items written by a function that builds its result in an accumulator, in order, for both styles:
+    `acc = b''; acc += x; ...; return acc` and `acc = bytearray(); acc.append(i); acc += x; acc.extend(y); return
+    bytes(acc)`.  Returns None when the returned value is not such an accumulation."""
+    if path.value is None:
+        return None
+    t = strip_epoch(path.value.term)
+    if t[0] in ('pure', 'call') and str(t[1]).split('.')[-1] in ('bytes', 'bytearray') and (t[3] if t[0] == 'pure'
+                                                                                           else t[2]):
+        t = strip_epoch((t[3] if t[0] == 'pure' else t[2])[0])
+
+    def base_of(x):
+        x = strip_epoch(x)
+        while x[0] == 'op' and x[1] == 'Add':
+            x = strip_epoch(x[2])
+        return x
+
+    base = base_of(t)
+    is_acc = (base[0] == 'const' and base[1] in (b'', bytearray())) or \
+        (base[0] == 'call' and str(base[1]).split('.')[-1] in ('bytearray', 'bytes') and not base[2])
+    if not is_acc:
+        return None
+    out: List[Emit] = []
+    for e in path.events:
+        if e.kind == 'store' and e.data['target'][0] == 'local' and e.data.get('aug') == 'Add':
+            v = strip_epoch(e.data['value'].term)
+            if v[0] == 'op' and v[1] == 'Add' and base_of(v) == base:
+                lower_bytes_expr(v[3], out, atoms, opaque_calls)
+        elif e.kind == 'call' and e.data.get('recv') is not None and base_of(e.data['recv'].term) == base and \
+                e.data.get('args'):
+            if e.data.get('name') == 'append':
+                a = e.data['args'][0].term
+                out.append(Emit('int', 1, a, lower_value_bits(a, 8)))
+            elif e.data.get('name') == 'extend':
+                lower_bytes_expr(e.data['args'][0].term, out, atoms, opaque_calls)
+    return out
